@@ -7,6 +7,7 @@ import Pushr.Spec.C06
 import Pushr.Spec.C07
 import Pushr.Spec.C08
 import Pushr.Spec.C09
+import Pushr.ListRec
 /-! `exec` / `step` requests: one observed transition of the real interpreter state. -/
 open Pushr Codec
 
@@ -170,14 +171,80 @@ def c09Eval : PropEval := fun i pre post =>
      | _, _ => none)
   | _, _ => none
 
+/-- the n-th point of `item` with the shallow type of `pat`, depth-first (C19 statement) -/
+def nthHit (pat item : Item) (n : Int32) : Option Item :=
+  if n < 0 then none else ((Item.points item).filter fun q => Item.shallowEq pat q)[n.toInt.toNat]?
+
+/-- fold of the id vector, written as a plain recursion over the ids (declarative restatement) -/
+def takeByIds : List Int32 → State → List Item × State
+  | [], s => ([], s)
+  | sid :: ids, s => match popById s sid with
+    | some (it, s') => let (r, s'') := takeByIds ids s'; (it :: r, s'')
+    | none => takeByIds ids s
+
+/-- C19: LIST.* against the record statements -/
+def c19Eval : PropEval := fun i pre post =>
+  match i, post with
+  | .list o, some post =>
+    let cmp (w : State) : Option String :=
+      if encState post == encState w then none else some ("record statement prescribes " ++ encState w)
+    (match o, pre.int with
+     | .bval, n :: idx :: il =>
+       let s1 := { pre with int := il }
+       (match (s1.code[clampIdx s1.code.length idx]? : Option Item) with
+        | some it => cmp (pushBool s1 (match nthHit (.lit (.bool false)) it n with
+            | some (.lit (.bool b)) => b
+            | _ => false))
+        | none => cmp s1)
+     | .ival, n :: idx :: il =>
+       let s1 := { pre with int := il }
+       (match (s1.code[clampIdx s1.code.length idx]? : Option Item) with
+        | some it => cmp (pushInt s1 (match nthHit (.lit (.int 0)) it n with
+            | some (.lit (.int v)) => v
+            | _ => 0))
+        | none => cmp s1)
+     | .fval, n :: idx :: il =>
+       let s1 := { pre with int := il }
+       (match (s1.code[clampIdx s1.code.length idx]? : Option Item) with
+        | some it => cmp (pushFloat s1 (match nthHit (.lit (.float 0)) it n with
+            | some (.lit (.float v)) => v
+            | _ => 0))
+        | none => cmp s1)
+     | .add, _ =>
+       (match pre.ivec with
+        | ids :: l =>
+          let (items, s') := takeByIds ids { pre with ivec := l }
+          -- exactly the designated items, one record, last taken item on top
+          cmp (pushCode s' (.list items.reverse))
+        | [] => cmp pre)
+     | .remove, idx :: il =>
+       let s1 := { pre with int := il }
+       cmp { s1 with code := s1.code.eraseIdx (clampIdx s1.code.length idx) }
+     | .get, idx :: il =>
+       let s1 := { pre with int := il }
+       (match (s1.code[clampIdx s1.code.length idx]? : Option Item) with
+        | some (.list xs) => cmp { s1 with exec := .list xs :: s1.exec }
+        | _ => cmp s1)
+     | .set, idx :: il =>
+       let s1 := { pre with int := il }
+       (match s1.ivec with
+        | ids :: l =>
+          let (items, s') := takeByIds ids { s1 with ivec := l }
+          if s'.code.isEmpty then cmp s'
+          else cmp { s' with code := s'.code.set (clampIdx s'.code.length idx) (.list items.reverse) }
+        | [] => cmp s1)
+     | _, _ => none)
+  | _, _ => none
+
 def propEvals : List (String × PropEval) :=
   [("C01", panicFree), ("C04", c04Eval), ("C05", c05Eval), ("C06", c06Eval), ("C07", c07Eval), ("C08", c08Eval),
-   ("C09", c09Eval)]
+   ("C09", c09Eval), ("C19", c19Eval)]
 
 /-- instruction names in the scope of a property's single-instruction scenario -/
 def scopeOf (pid : String) : List Instr :=
   match pid with
   | "C04" => Instr.all.filter C04.inTable
+  | "C19" => [.list .add, .list .bval, .list .fval, .list .get, .list .ival, .list .remove, .list .set]
   | "C09" => Instr.all.filter fun i => match i with
     | .vec _ .rand => false
     | .vec _ .loop => false
